@@ -77,6 +77,15 @@ def resolve(host):
     return '172.16.0.%d' % (int(digits) % HOSTIPS + 1)
 
 
+def _resolve_or_fail(env, host):
+    """`resolve`, unless a resolver outage was injected for this call."""
+    if getattr(env, 'dns_fail', False):
+        env.dns_fail = False
+        env.cut_hit = True
+        raise real_socket.gaierror(-2, 'harness: injected resolver failure')
+    return resolve(host)
+
+
 def unique_name(spec):
     return '%s-%s' % (spec['name'].replace('#', '-'), spec['uniqueid'].rjust(13, '0'))
 
@@ -185,9 +194,9 @@ def gen_case(rng, pid, tier):
                     ops.append(['refinish', i])
             elif x < 0.35:
                 # a fault inside the clean-up (an `ipset` / unlink call fails), possibly twice, before the retry
-                ops.append(['cutfinish', i, rng.randrange(0, 14)])
+                ops.append(['cutfinish', i, rng.choice(['dns'] + [rng.randrange(0, 14)] * 4)])
                 if rng.random() < 0.3:
-                    ops.append(['cutfinish', i, rng.randrange(0, 14)])
+                    ops.append(['cutfinish', i, rng.choice(['dns'] + [rng.randrange(0, 14)] * 4)])
             elif x < 0.42 and conts[i]['mode'] == 'direct':
                 ops.append(['start', i])         # started twice (edge stream)
             else:
@@ -691,7 +700,12 @@ def _run_impl(case, root):
         env.rule_log = []
         env.net_get = []
         env.keep_alloc = keep
-        env.cut = cut
+        env.dns_fail = cut == 'dns'        # the resolver fails once while the passthrough hosts are looked up:
+        if cut == 'dns':                   # nothing was removed yet, which is a cut before the first removal
+            cut = 0
+            env.cut = None
+        else:
+            env.cut = cut
         env.cut_hit = False
         before = snapshot()
         man = manifests.get(i)
@@ -709,6 +723,7 @@ def _run_impl(case, root):
         finally:
             env.keep_alloc = False
             env.cut = None
+            env.dns_fail = False
         after = snapshot()
         account(i, '_cleanup_network', before, after)
         t = track.get(i)
@@ -731,7 +746,7 @@ def _run_impl(case, root):
             an = env.net_get[0] if env.net_get else None
             line = ('cutfinish %d ' % cut) + tokens(man, spec['pid'], pass_order('u'))
             # (the injected fault itself is expected to surface; any other exception is reported)
-            other = raised is not None and not (env.cut_hit and raised == 'OSError:%d' % errno.EIO)
+            other = raised is not None and not (env.cut_hit and raised in ('OSError:%d' % errno.EIO, 'gaierror:-2'))
             run.op(line, '%san=%s ptok=1 live=%s %s' % ('RAISED=%s ' % raised if other else '',
                                                        'none' if an is None else '%s:%s' % an, show_live(), show_state()))
             return
@@ -884,7 +899,7 @@ def _run_impl(case, root):
         mock.patch('treadmill.runtime.archive_logs', mock.Mock()),
         mock.patch('treadmill.runtime.socket', _make_socket_module(env)),
         mock.patch('treadmill.runtime.random', _FakeRandom(env)),
-        mock.patch('socket.gethostbyname', resolve),
+        mock.patch('socket.gethostbyname', lambda host: _resolve_or_fail(env, host)),
         mock.patch('treadmill.runtime.linux._run.os', _OsProxy(env)),
     ]
     for p in patches:
